@@ -24,6 +24,9 @@ CHECKS = {
          'Counts after an AtLeastOnce restart are not judged. The concurrent clause runs under the H2 token scheduler (cfg walrus_verif).', '§5 C15'),
 }
 CHECKS.update({
+ 'C11': ('E5', 'exploration', 'structure-aware mutation testing of on-disk state (valid directory from a generated workload, mutations aimed at entry headers / payloads / cursor and marker files / file structure, stray files) with a crash-freedom and payload-membership oracle in a fresh process',
+         'A generated workload builds a valid directory; 1-4 generated mutations damage it; a fresh process with debug assertions on opens it and reads every topic through every API under a watchdog. No panic, abort, signal or hang; every returned payload must have been appended to that topic.',
+         'UB is detected through debug assertions (bounds, alignment, overflow), not through a sanitizer build. Loss or duplication of entries is not judged here.', '§5 C11'),
  'C22': ('E7', 'exploration', 'deterministic simulation testing: generated client programs x generated task schedules on a single-threaded executor (stand-in tokio with virtual clock, linearisable stand-in for the Raft metadata log with schedule-chosen apply lag), exactly-once / order oracle over all GET responses',
          'The repository\'s controller, bucket (on the real walrus-rust engine), client listener, lease loop and monitor run unmodified; every await is a scheduling point decided by generated schedule bytes. 1-3 nodes, rollover thresholds 1-4, 2-4 lock-step clients; afterwards the cluster quiesces and every topic is drained through a generated node. Every PUT answered OK must be returned by exactly one GET, in acknowledgement order per producer for GETs ordered in real time.',
          'Consensus is assumed correct (stand-in octopii = linearisable in-order log). Open finding C22-rollover-count-race is probed on every run; while it is open, cases outside the fenced shape (single node, one producer per topic, no Monitor) run with a rollover threshold that is never reached.', '§5 C22'),
@@ -116,6 +119,7 @@ m = {
    {'name': 'E1', 'path': 'harness/src/{absop,interp,model}.rs', 'serves_properties': ['C01','C02','C03','C06','C12','C14','C15','C16','C17'], 'kind_free_text': 'sequential model-based search: proptest-generated abstract histories, interpreted against a FIFO reference model, executed in child processes on the real engine'},
    {'name': 'E7', 'path': 'dist/src/{sim,simdrv}.rs, shims/{tokio,octopii,bincode}', 'serves_properties': ['C22','C23','C24'], 'kind_free_text': 'deterministic cluster simulation: distributed-walrus sources unmodified on a stand-in single-threaded tokio with virtual time and a linearisable stand-in for octopii; one child process per case'},
    {'name': 'E6', 'path': 'dist/src/meta.rs', 'serves_properties': ['C18','C20','C25'], 'kind_free_text': 'in-process checks of distributed-walrus metadata.rs and controller/types.rs (#[path]-included unmodified, compiled against stand-in crates under /verif/shims)'},
+   {'name': 'E5', 'path': 'harness/src/props/damage.rs', 'serves_properties': ['C11'], 'kind_free_text': 'directory mutation engine: E1 workload -> clean exit -> generated damage -> fresh process reads everything'},
    {'name': 'E4', 'path': 'harness/src/props/multi.rs', 'serves_properties': ['C13'], 'kind_free_text': 'multi-instance interpreter: one child process, several Walrus instances, one reference model per instance'},
    {'name': 'E3', 'path': 'harness/src/props/conc.rs, harness/src/conc.rs', 'serves_properties': ['C05','C15'], 'kind_free_text': 'schedule-controlled concurrency: thread programs executed under the H2 token scheduler (cfg walrus_verif), schedules generated by proptest or enumerated with a preemption bound'},
    {'name': 'E2', 'path': 'harness/src/props/crash.rs', 'serves_properties': ['C04','C07','C08','C09'], 'kind_free_text': 'crash-point enumeration: E1 workloads traced through the H1 I/O seam, re-executed with the process terminated at each selected event, recovered in a fresh process and judged against the acknowledged history'},
